@@ -128,16 +128,30 @@ func (s *Service) ScheduleJob(ctx context.Context,
 			finaliseJob(job)
 			job.active.Store(false)
 		case <-time.After(time.Until(runtime)):
-			// It is possible that the job is already active, so check that first before proceeding.
-			if job.active.Load() {
-				s.log.Trace().Str("job", name).Time("scheduled", runtime).Msg("Already running; job not running")
+			// It is possible that a run request has already claimed the job, so claim it
+			// under the state lock to ensure it is neither run twice nor lost.
+			job.stateLock.Lock()
+			claimed := job.active.Load()
+			if !claimed {
+				job.active.Store(true)
+			}
+			job.stateLock.Unlock()
+			if claimed {
+				// The run request has removed the job from the list and its signal is
+				// pending, so run the job on its behalf.
+				<-job.runCh
+				s.log.Trace().Str("job", name).Time("scheduled", runtime).Msg("Run triggered; job running")
+				monitorJobStartedOnSignal(class)
+				jobFunc(ctx)
+				s.log.Trace().Str("job", name).Time("scheduled", runtime).Msg("Job complete")
+				finaliseJob(job)
+				job.active.Store(false)
 				break
 			}
 			s.jobsMutex.Lock()
 			delete(s.jobs, name)
 			s.jobsMutex.Unlock()
 			s.log.Trace().Str("job", name).Time("scheduled", runtime).Msg("Timer triggered; job running")
-			job.active.Store(true)
 			monitorJobStartedOnTimer(class)
 			jobFunc(ctx)
 			s.log.Trace().Str("job", name).Time("scheduled", runtime).Msg("Job complete")
